@@ -60,7 +60,8 @@ def plan(tier, seed):
     if tier == 'quick':
         cases += [{'kind': 'trans', 'prog': n, 'cpu': c, 'end': (i + seed) % 2} for i, (n, c) in enumerate(sections)]
     else:
-        cases += [{'kind': 'trans', 'prog': n, 'cpu': c, 'end': e} for n, c in sections for e in (0, 1)]
+        # (three samplings: every mnemonic is represented by a different one of its statements each time)
+        cases += [{'kind': 'trans', 'prog': n, 'cpu': c, 'end': e, 'rep': k} for n, c in sections for e in (0, 1) for k in range(3)]
     # guarantee that every program appears once as successor of a generated predecessor and once in a pair
     for i, n in enumerate(names):
         cases.append({'kind': 'gen', 'succ': n})
